@@ -570,6 +570,12 @@ def _uniformity_shortcuts(ctx):
     from ..idioms import check_uniformity_shortcuts
     check_uniformity_shortcuts(ctx, [BAM, "bionumpy.alignments.cigar"], "C16-R11")
 
+def _buffer_selection(ctx):
+    from .c04 import r2_aligned_stores
+    with ctx.only("BamBuffer", "BamBufferExtractor"):
+        r2_aligned_stores(ctx)   # selecting rows of a BAM buffer selects the same rows of its extractor
+
+
 RULES = [
     ("C16-R1", r1_layout),
     ("C16-R2", r2_code_tables),
@@ -584,4 +590,5 @@ RULES = [
     ("C16-T2", _small_edits),
     ("C16-R10", _chunk_carry_over),
     ("C16-R11", _uniformity_shortcuts),
+    ("C16-R12", _buffer_selection),
 ]
